@@ -295,6 +295,12 @@ def run_ion_association(ctx, gen_leaves, boost=1):
             if id(ob) not in seen:
                 seen.add(id(ob))
                 chosen.append(ob)
+    cap = ctx.n(2600, 20000) * boost
+    if len(chosen) > cap:       # keep every flagged observation, subsample the rest (quick tier budget)
+        nfl = min(len(flagged), 600)
+        rest = chosen[nfl:]
+        ctx.rng.shuffle(rest)
+        chosen = chosen[:nfl] + rest[:max(0, cap - nfl)]
     exprs = ["check_gamma %s %s" % (coq_model(ob[2]), coq_obs(ob[3], ob[4])) for ob in chosen]
     vals, errs = coq_bools(PRELUDE, exprs)
     if errs:
@@ -488,7 +494,9 @@ def run_pitzer(ctx, boost=1):
             # premise of the discrete check: steps of at most ~1 % in every molality that matters
             summ = sum(m for n, (lg, m, la) in a["sp"].items() if n != "H2O")
             big = [abs(b["sp"][n][1] / m - 1) for n, (lg, m, la) in a["sp"].items() if n in b["sp"] and n != "H2O" and m > 0.02 * summ]
-            if big and max(big) > 0.0105:
+            if big and max(big) > 0.05:
+                # the path itself is built with <= 1 % composition steps; a major SPECIES jumping by more than 5 % means a
+                # non-smooth event (e.g. the charge-balancing pH switching regime): outside the premises, counted
                 nskip += 1
                 continue
             res_, scale = gd_step_py(a, b)
@@ -528,7 +536,7 @@ def run_pitzer(ctx, boost=1):
                           {"kind": "input", "sub": what, "database": j["dbname"], "input_text": j["text"], "step": k,
                            "observed": {"deviation": dev, "MU": a["mu"], "AW": a["aw"], "OSMOTIC": a["osm"]}, "expected": "relative residual <= 1e-4" if what == "gd" else "|aw - exp(-M_w phi sum m)| <= 1e-5"})
     ctx.extra.setdefault("input_distribution", {})["pitzer_sit"] = {
-        "paths": len(jobs), "paths_with_error_or_nonconvergence": nerr, "gibbs_duhem_steps_checked": nstep, "steps_skipped(major species changed by more than 1.05 %)": nskip, "water_activity_checks": naw,
+        "paths": len(jobs), "paths_with_error_or_nonconvergence": nerr, "gibbs_duhem_steps_checked": nstep, "steps_skipped(major species jumped by more than 5 %)": nskip, "water_activity_checks": naw,
         "worst_relative_gd_residual(binary64)": worst_gd, "worst_|aw-exp(-Mw phi sum m)|(binary64)": worst_aw,
         "databases": sorted({j["dbname"] for j in jobs})}
     return nstep, naw
@@ -559,10 +567,12 @@ def replay(ctx):
         for (name, m, lg, o), ok in zip(info, vals):
             ctx.case("replay:%s:%.3g" % (name, o["mu"]), sample={"species": name, "LG": lg, "accepted": ok})
             if ok is False:
-                ctx.violation("gamma:%s:%s:%s" % (db, m[0], name),
+                key = "gamma:%s:%s:%s" % (db, m[0], name)
+                if d["llnl"] and m[0] == "davies" and lg == 0.0:
+                    key = LLNL_DAVIES_KEY
+                ctx.violation(key,
                               "replay: reported log gamma of %s = %.12g differs from the model value %.12g (1e-9)" % (name, lg, model_value(m, o)),
-                              dict(rp, observed={"LG": lg, "MU": o["mu"]}, expected=model_value(m, o)))
-                break
+                              dict(rp, key=key, observed={"LG": lg, "MU": o["mu"]}, expected=model_value(m, o)))
     else:
         for k in range(len(rows) - 1):
             exprs.append(coq_gd(rows[k], rows[k + 1]))
@@ -609,19 +619,39 @@ def localise(ctx):
 def run(ctx):
     if ctx.replay:
         return replay(ctx)
+    import threading
     leaves = {}
-
-    def gen_and_keep():
+    # stage 2: regenerate (a refusal is a failed translator obligation, as in vlib.coq_stage)
+    try:
         leaves.update(c16_gen.generate())
-    ok = vlib.coq_stage(ctx, "Props/Properties_C16.vo", gen=gen_and_keep, extra_targets=["C16/Checker.vo"])
-    checker_ok = os.path.exists(os.path.join(vlib.COQ, "C16", "Checker.vo"))
-    if not checker_ok:
+        ctx.obligation("translator(C16)", True)
+    except Exception as ex:
+        ctx.obligation("translator(C16)", False, repr(ex))
+    # the verified checkers do not depend on the generated files: build them first, then prove the theorems (stage 3) while
+    # the correspondence (stage 4) is already running
+    chk = vlib.coq_make(["C16/Checker.vo"])
+    if not chk["C16/Checker.vo"][0]:
+        vlib.coq_stage(ctx, "Props/Properties_C16.vo", extra_targets=["C16/Checker.vo"])
         return
-    boost = 1 if ok else 2      # a broken obligation: search harder for a concrete failing input
-    if not ok:
+    box = {}
+
+    def stage():
+        try:
+            box["ok"] = vlib.coq_stage(ctx, "Props/Properties_C16.vo", extra_targets=["C16/Checker.vo"])
+        except Exception as ex:      # infrastructure trouble inside the thread must not be lost
+            box["ok"] = False
+            ctx.obligation("coq-stage", False, repr(ex))
+    th = threading.Thread(target=stage)
+    th.start()
+    run_ion_association(ctx, leaves, 1)
+    run_pitzer(ctx, 1)
+    th.join()
+    if not box.get("ok"):
+        # a broken obligation: name the region and search harder for a concrete failing input (second, larger round)
         localise(ctx)
-    run_ion_association(ctx, leaves, boost)
-    run_pitzer(ctx, boost)
+        if not [v for v in ctx.violations if v[3]]:
+            run_ion_association(ctx, {}, 2)
+            run_pitzer(ctx, 2)
     ctx.rule = ("ion association: random compositions (major salt pair 1e-4..6 molal + rotating minor elements of the database, 0..100 C, pH 4..10) "
                 "in phreeqc.dat/wateq4f.dat/llnl.dat/iso.dat; every aqueous species of every solution is compared by the Coq-verified interval "
                 "checker check_gamma (1e-9) with the model the database text assigns; a case = (database, species, model, MU). "
